@@ -1,5 +1,5 @@
 (* C15 for C12: the spec of the moral graph (collider-connectedness), the model moral_adj / moral_edges / moral_sep and the
-   separation criterion commute with every one-to-one renaming of the nodes; the spec and moral_adj ignore list order. *)
+   separation criterion commute with every one-to-one renaming of the nodes; the spec, moral_adj, the moral graph and moral_sep ignore list order. *)
 From Coq Require Import List Arith Bool Lia.
 From PG Require Import Base.ListSet Base.Closure Graph.MGraph Graph.MSep Graph.Walks Graph.Rename Graph.RenameMore
   C12.Model C12.Enum C12.Spec C12.Proofs.
@@ -222,6 +222,92 @@ Proof.
   split; [intros a b; reflexivity|]. split; [intros a b; reflexivity|]. split; [|intros a b; reflexivity].
   intros a b. apply bool_eq_iff. rewrite !moral_has_u, (moral_adj_gequiv g g' a b He),
     (gequiv_V g g' a He), (gequiv_V g g' b He). tauto.
+Qed.
+
+(* ---------- order-freedom of the criterion model moral_sep ---------- *)
+Lemma ant_of_spec g s a : incl s (V g) ->
+  (In a (ant_of g s) <-> reach (fun v => parents g v ++ unbrs g v) s a).
+Proof.
+  intros Hs. unfold ant_of. apply closure_spec with (univ := V g); auto using Nat.eqb_eq.
+  intros x _ b Hb. apply in_app_or in Hb. destruct Hb as [Hb|Hb]; [apply parents_In in Hb|apply unbrs_In in Hb]; tauto.
+Qed.
+
+Lemma ant_of_gequiv g g' s s' a : gequiv g g' -> (forall b, In b s <-> In b s') -> incl s (V g) ->
+  (In a (ant_of g s) <-> In a (ant_of g' s')).
+Proof.
+  intros He Hs Hi. rewrite (ant_of_spec g s a Hi), (ant_of_spec g' s' a).
+  - apply reach_ext; [|exact Hs]. intros x c. rewrite !in_app_iff, (parents_gequiv_iff g g' x c He), (unbrs_gequiv_iff g g' x c He). tauto.
+  - intros b Hb. apply (gequiv_V g g' b He). apply Hi. apply Hs. exact Hb.
+Qed.
+
+Lemma keep_pmemb s l a b : pmemb (a, b) (keep_edges s l) = pmemb (a, b) l && memb a s && memb b s.
+Proof.
+  apply bool_eq_iff. unfold keep_edges. rewrite !andb_true_iff, !pmemb_In, filter_In. simpl. rewrite andb_true_iff. tauto.
+Qed.
+
+Lemma keep_smemb s l a b : smemb a b (keep_edges s l) = smemb a b l && memb a s && memb b s.
+Proof.
+  unfold smemb. rewrite !keep_pmemb. destruct (pmemb (a, b) l), (pmemb (b, a) l), (memb a s), (memb b s); reflexivity.
+Qed.
+
+Lemma memb_seteq A A' a : (forall b, In b A <-> In b A') -> memb a A = memb a A'.
+Proof. intros H. apply bool_eq_iff. rewrite !memb_In. apply H. Qed.
+
+Lemma restrict_gequiv g g' A A' : gequiv g g' -> (forall a, In a A <-> In a A') -> gequiv (restrict g A) (restrict g' A').
+Proof.
+  intros He HA. split; [|split; [|split; [|split]]].
+  - intros a. unfold restrict. simpl. rewrite !filter_In, (gequiv_V g g' a He), (memb_seteq A A' a HA). tauto.
+  - intros a b. unfold has_d, restrict. simpl. rewrite !keep_pmemb, (memb_seteq A A' a HA), (memb_seteq A A' b HA).
+    pose proof (gequiv_d g g' a b He) as E. unfold has_d in E. rewrite E. reflexivity.
+  - intros a b. unfold has_b, restrict. simpl. rewrite !keep_smemb, (memb_seteq A A' a HA), (memb_seteq A A' b HA).
+    pose proof (gequiv_b g g' a b He) as E. unfold has_b in E. rewrite E. reflexivity.
+  - intros a b. unfold has_u, restrict. simpl. rewrite !keep_smemb, (memb_seteq A A' a HA), (memb_seteq A A' b HA).
+    pose proof (gequiv_u g g' a b He) as E. unfold has_u in E. rewrite E. reflexivity.
+  - intros a b. unfold has_c, restrict. simpl. rewrite !keep_pmemb, (memb_seteq A A' a HA), (memb_seteq A A' b HA).
+    pose proof (gequiv_c g g' a b He) as E. unfold has_c in E. rewrite E. reflexivity.
+Qed.
+
+Lemma cut_reach_spec vs es X Z y : incl X vs ->
+  (In y (cut_reach vs es X Z) <-> reach (fun v => diffb (nbrs_in vs es v) Z) (diffb X Z) y).
+Proof.
+  intros Hx. unfold cut_reach. apply closure_spec with (univ := vs); auto using Nat.eqb_eq.
+  - intros x _ b Hb. apply diffb_In in Hb. destruct Hb as [Hb _]. unfold nbrs_in in Hb. apply filter_In in Hb. tauto.
+  - intros b Hb. apply diffb_In in Hb. apply Hx. tauto.
+Qed.
+
+Lemma vertex_cut_gequiv h h' X X' Y Y' Z Z' : gequiv h h' ->
+  (forall a, In a X <-> In a X') -> (forall a, In a Y <-> In a Y') -> (forall a, In a Z <-> In a Z') ->
+  incl X (V h) -> vertex_cut h X Y Z = vertex_cut h' X' Y' Z'.
+Proof.
+  intros He Hx Hy Hz Hi. unfold vertex_cut. f_equal. apply bool_eq_iff. rewrite !existsb_exists.
+  assert (Hi' : incl X' (V h')) by (intros a Ha; apply (gequiv_V h h' a He); apply Hi; apply Hx; exact Ha).
+  assert (R : forall y, In y (cut_reach (V h) (moral_edges h) X Z) <-> In y (cut_reach (V h') (moral_edges h') X' Z')).
+  { intros y. rewrite (cut_reach_spec _ _ X Z y Hi), (cut_reach_spec _ _ X' Z' y Hi'). apply reach_ext.
+    - intros v b. rewrite !diffb_In. unfold nbrs_in. rewrite !filter_In, (gequiv_V h h' b He), (Hz b).
+      change (smemb v b (moral_edges h)) with (has_u (moral_graph h) v b).
+      change (smemb v b (moral_edges h')) with (has_u (moral_graph h') v b).
+      rewrite (gequiv_u _ _ v b (moral_graph_gequiv h h' He)). tauto.
+    - intros b. rewrite !diffb_In, (Hx b), (Hz b). tauto. }
+  split; intros [y [H1 H2]]; exists y; rewrite memb_In in *.
+  - split; [apply Hy; exact H1|apply R; exact H2].
+  - split; [apply Hy; exact H1|apply R; exact H2].
+Qed.
+
+(* the criterion model ignores the order in which nodes and edges are listed (X, Y, Z nodes of g) *)
+Theorem moral_sep_gequiv g g' X X' Y Y' Z Z' : gequiv g g' ->
+  (forall a, In a X <-> In a X') -> (forall a, In a Y <-> In a Y') -> (forall a, In a Z <-> In a Z') ->
+  incl X (V g) -> incl Y (V g) -> incl Z (V g) ->
+  moral_sep g X Y Z = moral_sep g' X' Y' Z'.
+Proof.
+  intros He Hx Hy Hz Ix Iy Iz. unfold moral_sep, ant_graph.
+  assert (Hs : forall b, In b (X ++ Y ++ Z) <-> In b (X' ++ Y' ++ Z')).
+  { intros b. rewrite !in_app_iff, (Hx b), (Hy b), (Hz b). tauto. }
+  assert (Is : incl (X ++ Y ++ Z) (V g)).
+  { intros b Hb. rewrite !in_app_iff in Hb. destruct Hb as [Hb|[Hb|Hb]]; auto. }
+  apply vertex_cut_gequiv; try assumption.
+  - apply restrict_gequiv; [exact He|]. intros a. apply ant_of_gequiv; assumption.
+  - intros x Hxx. unfold restrict. simpl. apply filter_In. split; [apply Ix; exact Hxx|].
+    apply memb_In. apply (ant_of_spec g _ x Is). apply reach_init. apply in_or_app. left. exact Hxx.
 Qed.
 
 (* non-vacuity: the bow-free collider 0 -> 2 <-> 3 <- 1 renamed by v |-> 5 v + 3 *)
